@@ -25,14 +25,16 @@ func init() { quietLog = log.New(zapcore.AddSync(io.Discard), log.FatalLevel, fa
 
 // outcome of one executed case
 type outcome struct {
-	line    string // Coq term
-	descr   string
-	fails   []emit.MonitorFailure
-	buckets []string
-	nontriv bool
-	key     string
-	extra   map[string]int
-	err     error
+	line          string   // Coq term
+	extra2        []string // further Coq terms of the same case
+	before, after []*common.Beacon
+	descr         string
+	fails         []emit.MonitorFailure
+	buckets       []string
+	nontriv       bool
+	key           string
+	extra         map[string]int
+	err           error
 }
 
 const hangTimeout = 20 * time.Second
@@ -506,6 +508,79 @@ func runCase(c *scase) (out outcome) {
 		}
 		out.buckets = append(out.buckets, fmt.Sprintf("check/faulty=%d", len(want)))
 		out.nontriv = len(want) > 0
+	case "checkcorrect":
+		// the check on the real SyncManager, then the correction of exactly what it listed
+		r, err := setup(c, nil, false)
+		if err != nil {
+			out.err = err
+			return
+		}
+		list, cerr := r.sm.CheckPastBeacons(r.ctx, c.upTo, nil)
+		resT := "None"
+		if cerr == nil {
+			var xs []string
+			for _, x := range list {
+				xs = append(xs, fmt.Sprint(x))
+			}
+			resT = "(Some [" + strings.Join(xs, "; ") + "])"
+		}
+		checkLine := fmt.Sprintf("CCheck %s %s %d %s", r.validTerm(), r.baseTerm(), c.upTo, resT)
+		var want []uint64
+		lim := c.upTo
+		if l := lastRound(r.raw); l < lim {
+			lim = l
+		}
+		for rd := uint64(1); rd <= lim; rd++ {
+			if b, gerr := r.raw.Get(r.ctx, rd); gerr != nil || !w.valid(b) {
+				want = append(want, rd)
+			}
+		}
+		r.close()
+		c2 := *c
+		c2.kind = "correct"
+		for _, rd := range list {
+			c2.jobs = append(c2.jobs, job{round: rd, attempts: [2][]*peerSpec{{w.failsOn(c.lost), w.failsOn(c.lost)}, {w.failsOn(c.lost)}}})
+		}
+		out = runCase(&c2)
+		out.descr = c.label()
+		if out.err != nil {
+			return
+		}
+		for i := range out.fails {
+			out.fails[i].Input = c.label()
+		}
+		out.extra2 = append(out.extra2, checkLine)
+		m2 := &mon{c: c, extra: out.extra}
+		// M (C02): after any check/correct history the persisted chain has no new hole and nothing
+		// above the head it had before was written by the repair
+		have := func(bs []*common.Beacon) (map[uint64]bool, uint64) {
+			h, mx := map[uint64]bool{}, uint64(0)
+			for _, b := range bs {
+				h[b.Round] = true
+				if b.Round > mx {
+					mx = b.Round
+				}
+			}
+			return h, mx
+		}
+		hb, maxB := have(out.before)
+		ha, maxA := have(out.after)
+		var newHoles []uint64
+		for rd := uint64(0); rd <= maxA; rd++ {
+			if !ha[rd] && (rd > maxB || hb[rd]) {
+				newHoles = append(newHoles, rd)
+			}
+		}
+		if maxA != maxB || len(newHoles) > 0 {
+			m2.fail("C02-hole-in-persisted-chain", fmt.Sprintf("store before: %s; CheckPastBeacons(%d) listed %v; after CorrectPastBeacons of that list the raw store's last round is %d (was %d) and rounds %v are missing below it", storeSummary(w, out.before), c.upTo, list, maxA, maxB, newHoles))
+		}
+		if cerr != nil || fmt.Sprint(want) != fmt.Sprint(list) {
+			m2.fail("check-not-exact", fmt.Sprintf("CheckPastBeacons(%d) returned %v (err %v), faulty rounds are %v", c.upTo, list, cerr, want))
+		}
+		out.fails = append(m2.fails, out.fails...)
+		out.buckets = append(out.buckets, fmt.Sprintf("checkcorrect/listed=%d", len(list)))
+		out.key = out.line + checkLine
+		return
 	case "correct":
 		var atts [][]*peerSpec
 		var rounds []uint64
@@ -560,6 +635,7 @@ func runCase(c *scase) (out outcome) {
 			res = "CorrErr"
 		}
 		d, after := r.dumpTerm()
+		out.before, out.after = r.before, after
 		var js []string
 		for i, j := range c.jobs {
 			js = append(js, fmt.Sprintf("(%d, (%s, %s))", j.round, r.cl.attemptTerm(2*i), r.cl.attemptTerm(2*i+1)))
@@ -643,6 +719,8 @@ func runCase(c *scase) (out outcome) {
 				switch {
 				case memdbKept:
 					cls = "repair-noop-on-memdb-existing-round"
+				case err == nil:
+					cls = "C10-repair-reported-success-but-round-still-faulty"
 				case viaRetry:
 					cls = "C10-repair-incomplete-after-retry"
 				}
@@ -933,6 +1011,10 @@ func Run(outDir string, seed int64, tier string) error {
 			}
 		}
 		lines = append(lines, o.line)
+		for _, l := range o.extra2 {
+			lines = append(lines, l)
+			descr = append(descr, o.descr)
+		}
 		descr = append(descr, o.descr)
 		rep.Sample(o.descr, 10)
 	}
